@@ -76,6 +76,19 @@ def gen_history(r, cat, length):
         else:
             ops.append("BRESET")
             pushed_types = []
+    # near misses: a value of a slightly different type (pushed through the dynamic API, which can express any
+    # struct), asked for as the catalogue type: must be WrongSignature, never a misread
+    near = []
+    for _ in range(r.choice([0, 1, 2])):
+        ty = r.choice(cat)
+        t = wg.parse_ext(ty)
+        cands = [nm for nm in wg.near_misses(t) if wg.erased(nm) != wg.erased(t) and _struct_arity_ok(nm) and not _has_variant(nm)]
+        if not cands:
+            continue
+        nm = r.choice(cands)
+        toks, isbad = wg.gen_value(r, nm, bad=False, dict_sizes=(0, 1))
+        ops.append("BOLD " + " ".join(toks))
+        near.append(ty)
     # parser walk over what is committed: mismatching request first, then the right one (or get_param / getN)
     ops.append("PNEW")
     for (ty, isbad, n, _) in pushed_types:
@@ -104,9 +117,37 @@ def gen_history(r, cat, length):
             else:
                 ops.append("PGET " + ty)
                 left -= 1
+    for ty in near:
+        ops.append("PGET " + ty)          # the near miss: wrong signature expected
+        ops.append("PGETN %s 2" % ty)
+        ops.append("PGETP")               # the dynamic API reads it
     ops.append("PGET y")
     ops.append("PGETP")
     return ops
+
+
+def _struct_arity_ok(t):
+    k = t[0]
+    if k == "r":
+        return 1 <= len(t[1]) <= 8 and all(_struct_arity_ok(x) for x in t[1])
+    if k == "a":
+        return _struct_arity_ok(t[1])
+    if k == "e":
+        return _struct_arity_ok(t[2])
+    return True
+
+
+def _has_variant(t):
+    k = t[0]
+    if k == "v":
+        return True
+    if k == "a":
+        return _has_variant(t[1])
+    if k == "r":
+        return any(_has_variant(x) for x in t[1])
+    if k == "e":
+        return _has_variant(t[2])
+    return False
 
 
 def run(ctx):
